@@ -442,10 +442,14 @@ def check_C12(ctx):
     if ctx.quick():
         import random
         lay = random.Random(ctx.seed).sample(lay, 900)
-    # three layers (files) over the same keys, sampled by TLC simulation: the closure of a range compaction under overlap may
-    # then need more than one pass
-    lay3 = tlc_sim(ctx, 'GEN_Layout', 'GEN_Layout3.cfg', 700 if ctx.quick() else 6000, 30, ctx.seed * 19 + 1, timeout=600, tag='gen-layout3')
-    ctx.notes['three_layer_layouts_sampled'] = len(lay3)
+    # three layers (files) over the same keys: every layout x range compaction whose selection is not closed under overlap after
+    # one pass over the files (a chain: the first file overlaps the requested range, the second only the first, the third only
+    # the second), enumerated exhaustively by TLC
+    lay3 = tlc_enumerate(ctx, 'GEN_Layout', 'GEN_Layout3.cfg', timeout=900)
+    ctx.notes['three_layer_chain_layouts_enumerated'] = len(lay3)
+    if ctx.quick():
+        import random
+        lay3 = random.Random(ctx.seed + 1).sample(lay3, min(len(lay3), 700))
     lay = lay + lay3
     nontrivial_c12(ctx, lay)
     ctx.traces += run_replays(ctx, 'C12', lay, ['-dirview'], [CLASSES[0], ('ascii-bigmem-immsync', 'ascii', {'memtable_size': 1 << 20, 'sync_mode': 2, 'compact_sec': 3600}, 1.0)][:1 if ctx.quick() else 2], 'c12lay')
